@@ -194,7 +194,7 @@ PLANS["C03"] = {
         step("dbg", "firv-views", 1500000, timeout=10000),
         step("rel", "firv-views", 1500000, timeout=10000),
         step("rel", "firv-views", 4000000, sub="sweep", timeout=10000),
-        step("miri", "firv-views", 9600, shards=16, timeout=20000),
+        step("miri", "firv-views", 3200, shards=16, timeout=20000),
         step("miri", "firv-views", 0, sub="splits", prop_arg="C14", shards=16, timeout=20000),
         step("miri", "firv-views", 0, sub="interleave", prop_arg="C14", shards=2, timeout=3000),
         step("miri", "firv-misc", 4800, sub="small", prop_arg="C06", shards=16, timeout=20000),
